@@ -176,6 +176,78 @@ def q_class(repo, name):
   return None
 
 
+ACTIVATION_NAMES = {
+    # the three fused activations with a quantized counterpart
+    "relu": "quantized_relu(%d)", "tanh": "quantized_tanh(%d)",
+    "sigmoid": "quantized_sigmoid(%d)",
+    # everything else is a hyper-parameter that is carried over unchanged
+    "linear": None, "softmax": None, "elu": None, "selu": None,
+    "softplus": None, "softsign": None, "swish": None, "silu": None,
+    "gelu": None, "exponential": None, "mish": None, "relu6": None,
+    "leaky_relu": None, "hard_sigmoid": None, "hard_silu": None,
+    "hard_swish": None, "hard_tanh": None, "log_sigmoid": None,
+    "log_softmax": None, "sparse_sigmoid": None, "tanh_shrink": None,
+    "celu": None, "glu": None, "squareplus": None, "threshold": None,
+}
+
+
+def rule_activation_names(rep, repo):
+  """R8: utils.quantize_activation (the helper behind every arm when the
+  entry has no activation_quantizer) interpreted for every Keras activation
+  name (as the JSON config holds it): relu / tanh / sigmoid
+  become their quantized counterpart at the requested width, every other
+  activation - including those whose name contains or ends with one of the
+  three - stays exactly as it was."""
+  um = repo.module(UM)
+  fn = um.functions.get("quantize_activation")
+  if fn is None:
+    raise AnalysisError("anchor-missing function utils.quantize_activation")
+  unit = "%s::quantize_activation" % um.relpath
+  rep.unit(unit)
+  loc = um.loc(fn)
+  for name, want in sorted(ACTIVATION_NAMES.items()):
+    for form in ("string",):    # a JSON model config only holds names
+      if form == "string":
+        given = name
+      else:
+        given = Mock("function " + name, {
+            "__name__": name,
+            "__class__": Mock("class", {"__name__": "function"})})
+      cfgd = {"name": "layer", "activation": given, "units": 3}
+      pe = PE(repo)
+      pe.ext_overrides = {
+          "*.FunctionType": lambda pe, a, k: None}
+      cfg = "activation=%s (%s)" % (name, form)
+      try:
+        pe.call(pe.lookup_global("quantize_activation", um), [cfgd, 5], {})
+      except PyRaise as e:
+        rep.fail("R8", unit, "quantize_activation-raises", "%s: %s" %
+                 (cfg, e), loc=loc, instance=cfg)
+        continue
+      got = cfgd.get("activation")
+      exp = (want % 5) if want else given
+      rep.check(got == exp if want else got is given, "R8", unit,
+                "fused-activation-rewritten" if not want else
+                "fused-activation-not-quantized",
+                "%s becomes %r, expected %r" % (cfg, got, exp), loc=loc,
+                instance=cfg, observed=str(got)[:60])
+      rep.check({k: v for k, v in cfgd.items() if k != "activation"} ==
+                {"name": "layer", "units": 3}, "R8", unit,
+                "other-keys-touched", "%s: %r" % (cfg, cfgd), loc=loc,
+                instance=cfg)
+  # absent / None activation
+  for cfgd in ({"name": "l"}, {"name": "l", "activation": None}):
+    before = dict(cfgd)
+    pe = PE(repo)
+    try:
+      pe.call(pe.lookup_global("quantize_activation", um), [cfgd, 5], {})
+      rep.check(cfgd == before, "R8", unit, "absent-activation-rewritten",
+                "%r becomes %r" % (before, cfgd), loc=loc)
+    except PyRaise as e:
+      rep.fail("R8", unit, "quantize_activation-raises", "%r: %s" %
+               (before, e), loc=loc)
+
+
 def run(rep, repo, tier):
   um = repo.module(UM)
   unit = "%s::model_quantize" % um.relpath
@@ -424,6 +496,8 @@ def run(rep, repo, tier):
               "position of the new model: %s" % (wcalls, want), loc=loc)
   except PyRaise as e:
     rep.fail("R8", unit, "weight-transfer-raises", "raises %s" % e, loc=loc)
+  rule_activation_names(rep, repo)
+  rep.require_instances("R8", 50)
   rep.require_instances("R1", 10)
   rep.require_instances("R4", 10)
   rep.require_instances("R5", 30)
